@@ -18,6 +18,8 @@ package climate
 //@   loop 0 invariant (dx >= 0 && tDewPoint <= rtb && rtb + dx <= tDryBulb) || (dx <= 0 && tDryBulb <= rtb + dx && rtb <= tDewPoint)
 
 //@ func climateVariables(dryBulb, humidity, elevation, vaporPressure, dewPoint, wetBulb, deltaT)
+//@   kernel
+//@   states none
 //@   noalias
 //@   requires dryBulb.len == humidity.len && dryBulb.len == vaporPressure.len && dryBulb.len == dewPoint.len && dryBulb.len == wetBulb.len && dryBulb.len == deltaT.len
 //@   requires forall(k, 0, dryBulb.len, dryBulb.at(k) >= -40 && dryBulb.at(k) <= 55)
